@@ -633,8 +633,9 @@ def assemble(unit, items=None, twin=False):
         out.add(GLUE_SCHEME, kind="glue")
     if family == "cl":
         out.add(GLUE_CL, kind="glue")
+    spec_twins = [] if twin else None
     for sf in unit.get("specs", []):
-        out.add_file(os.path.join(VERIF, "specs", sf), "spec")
+        out.add_file(os.path.join(VERIF, "specs", sf), "spec", twin=spec_twins)
     for sf in unit.get("code_shims", []):
         out.add_file(os.path.join(VERIF, "shim", sf), "shim")
     # functions grouped by impl header
@@ -667,7 +668,7 @@ def assemble(unit, items=None, twin=False):
         else:
             groups.append((hdr, [(p, a)]))
     nverify = 0
-    twin_list = [] if twin else None
+    twin_list = list(spec_twins) if twin else None
     for hdr, members in groups:
         if hdr:
             out.add(hdr + " {", kind="impl")
